@@ -5,6 +5,8 @@ import LanceModel.C26.BinPage
 import LanceModel.C26.DictLemmas
 import LanceModel.C26.BitpackLemmas
 import LanceModel.C26.VarLemmas
+import LanceModel.C26.PackedLemmas
+import LanceModel.C26.OolLemmas
 /-!
 # C26 — every compression codec is lossless; chunking respects the mini-block limits
 
@@ -170,6 +172,18 @@ theorem variable_block_dec_enc (offs data : List Nat) :
 example : varBlockEncode 4 [0, 3, 3, 8] [1, 8, 15, 9, 16, 23, 30, 37] =
     [32, 0, 0, 0, 24, 0, 0, 0, 0, 0, 0, 0, 3, 0, 0, 0, 3, 0, 0, 0, 8, 0, 0, 0, 1, 8, 15, 9, 16, 23, 30, 37] := by decide
 
+/-! ## packed struct (fixed width children) -/
+
+/-- PackedStructFixedWidthMiniBlockEncoder's row-major zip (struct_data_block_to_fixed_width_data_block) is undone by
+    PackedStructFixedWidthMiniBlockDecompressor for any number of children, widths and rows (children all hold `n` values).
+    The zipped buffer is then chunked by ValueEncoder (`flat_dec_enc`). -/
+theorem packed_dec_enc (children : List (Nat × List Nat)) (n : Nat) (h : Full children n) :
+    packedDecodeChunk (children.map (·.1)) [packRows children n 0] n = .ok (children.map (·.2)) := by
+  have := unpackChildren_eq children n h [] children rfl
+  simpa [packedDecodeChunk] using this
+
+example : packRows [(1, [1, 2, 3]), (2, [10, 11, 20, 21, 30, 31])] 3 0 = [1, 10, 11, 2, 20, 21, 3, 30, 31] := by decide
+
 /-! ## dictionary -/
 
 /-- dictionary_encode then lookup: the indices point at the input values; the dictionary has no duplicates -/
@@ -217,6 +231,14 @@ theorem inline_bitpack_chunk_bytes_tie (k : Kernel) (hk : KernelOK k) (hbits : k
   rcases hbits with h | h | h | h <;> rw [h] at this ⊢ <;> congr 1 <;> omega
 
 example : chunkBitWidth [0, 5, 255] = 8 ∧ chunkBitWidth [0, 0] = 0 ∧ chunkBitWidth [2 ^ 63] = 64 := by decide
+
+/-- OutOfLineBitpacking (bitpack_out_of_line / unpack_out_of_line): whole 1024-value chunks packed at one width, the
+    tail stored raw or zero padded and packed, and the decoder's guess of the tail layout from the buffer length is
+    always right (a packed tail never has exactly `tail` words: packing is chosen only when it is strictly smaller) -/
+theorem out_of_line_bitpack_dec_enc (k : Kernel) (hk : KernelOK k) (hb : 0 < k.bits) (w : Nat) (hw : w ≤ k.bits)
+    (xs : List Nat) (hfit : ∀ x ∈ xs, x < 2 ^ w) :
+    oolDecode k w (oolEncode k w (xs.length + 1) xs) xs.length = xs :=
+  ool_roundtrip k hk hb w hw xs hfit
 
 /-! ## general (LZ4 / ZSTD) wrapper, the library as a parameter -/
 
